@@ -1,6 +1,6 @@
 (* Extraction for the "c03" driver (C03: periodic Delaunay / Voronoi certificate checkers).
    ExtrOcamlBasic only; nat, positive, Z stay the extracted inductive types. *)
-From Koala Require Import Model.Lattice Model.Delaunay Model.VoronoiPost Model.VoronoiPeriodic.
+From Koala Require Import Model.Lattice Model.Delaunay Model.VoronoiPost Model.VoronoiPeriodic Model.VoronoiDual Model.VoronoiPeriodicTol.
 Require Extraction.
 Require Import ExtrOcamlBasic.
 Extraction "model.ml"
@@ -10,4 +10,8 @@ Extraction "model.ml"
   (* Model/VoronoiPost.v: the post-processing of voronization.generate_lattice *)
   mkVor padding_of generate_point_array post_stages edge_ends sorted_nodup reindex post_process post_process_sorted
   (* Model/VoronoiPeriodic.v: the hypotheses of post_correct, evaluated on scipy's record *)
-  post_hyps.
+  post_hyps
+  (* Model/VoronoiDual.v: the record-level duality hypotheses of C03_post_correct_dual *)
+  post_dual_hyp cert_of
+  (* Model/VoronoiPeriodicTol.v: index-level periodicity (also holds for float circumcentres) *)
+  post_hyps_t.
